@@ -1,7 +1,7 @@
 (* C08 - eIds follow the naming convention and are stable under unrelated edits.
    Statements only; proofs in Proofs/EidConvention.v. *)
 Require Import BB.Base.Str BB.Base.Xml BB.Gen.TablesXml BB.Model.Eid BB.Model.EidSpec.
-Require Import BB.Proofs.EidConvention BB.Proofs.EidTop BB.Proofs.EidLocal.
+Require Import BB.Proofs.EidConvention BB.Proofs.EidTop BB.Proofs.EidLocal BB.Proofs.EidNest.
 
 (* For every tree, prefix and generator state: every identified element's id is
    <prefix handed down>__<abbreviation>_<number part>, possibly followed by _k suffixes, where the
@@ -42,3 +42,9 @@ Theorem C08_subtree_ids_local : forall e q s t e' s1,
   exists t1, rewrite_eid e q t = Some (e', t1) /\ agree (under q) s1 t1.
 Proof. intros e q s t e' s1. apply rewrite_eid_local. intros k Hk. exact Hk. Qed.
 Print Assumptions C08_subtree_ids_local.
+
+(* the naming convention, read from the tree alone: below every identified element, every id is that element's id
+   followed by "__...", at every depth *)
+Theorem C08_ids_nest : forall e q s e' s', rewrite_eid e q s = Some (e', s') -> ids_nested e'.
+Proof. exact rewrite_ids_nested. Qed.
+Print Assumptions C08_ids_nest.
